@@ -1,8 +1,12 @@
 package main
 
 import (
+	"bytes"
 	"math/rand"
+	"os"
+	"os/exec"
 	"strconv"
+	"strings"
 
 	"verifharness/sx"
 )
@@ -39,6 +43,12 @@ func init() {
 	register("visits", family{gen: func(r *rand.Rand, tier string) *sx.Node {
 		return genRunnerCase(r, visitCfg, opsCfg{steps: 40, extraAfterEnd: 1, snapshots: true, runners: 1})
 	}, run: runRunnerCase})
+	register("exprs", family{gen: genExprCase, run: runRunnerCase})
+	rndCfg := flowCfg
+	rndCfg.randomFns, rndCfg.wCmd, rndCfg.wStop, rndCfg.faultPct = true, 0, 0, 0
+	register("random", family{gen: func(r *rand.Rand, tier string) *sx.Node {
+		return genRunnerCase(r, rndCfg, opsCfg{steps: 30, extraAfterEnd: 1})
+	}, run: runRepeated})
 	endCfg := flowCfg
 	endCfg.wStop, endCfg.wJump, endCfg.maxNodes = 4, 1, 2
 	register("endcalls", family{gen: func(r *rand.Rand, tier string) *sx.Node {
@@ -301,4 +311,135 @@ func replayTail(r *rand.Rand, c *sx.Node, ops []*sx.Node, oc opsCfg, step int) [
 		}
 	}
 	return tail
+}
+
+// genExprCase: one node of <<call p("r<i>", EXPR)>> statements over deep expressions (C02): the value
+// each expression evaluates to reaches the probe with its type, the probes inside the expression log
+// their own calls, so order and count of evaluation are observable.
+func genExprCase(r *rand.Rand, tier string) *sx.Node {
+	cfg := flowCfg
+	cfg.exprDepth, cfg.faultPct, cfg.visitedFns = 3+r.Intn(3), 4, false
+	g := &dgen{r: r, cfg: cfg}
+	g.nodes = []string{"Start"}
+	g.vars = map[string][]string{"num": {"n1", "n2"}, "bool": {"b1", "b2"}, "str": {"s1", "s2"}}
+	body := []*sx.Node{}
+	for _, d := range []struct {
+		n string
+		v *sx.Node
+	}{{"n1", numLit(3)}, {"n2", numLit(2.5)}, {"b1", boolLit(true)}, {"b2", boolLit(false)}, {"s1", strLit("one")}, {"s2", strLit("")}} {
+		body = append(body, sx.Tag("declare", sx.Str(d.n), d.v))
+	}
+	k := 3 + r.Intn(6)
+	for i := 0; i < k; i++ {
+		t := []string{"num", "bool", "str", "bool"}[r.Intn(4)]
+		var e *sx.Node
+		if r.Intn(3) == 0 {
+			e = g.chain(t)
+		} else {
+			e = g.expr(t, cfg.exprDepth)
+		}
+		body = append(body, sx.Tag("call", sx.Str("p"), sx.List(strLit("r"+strconv.Itoa(i)), e)))
+	}
+	body = append(body, sx.Tag("line", sx.List(sx.Tag("t", sx.Str("done"))), sx.List(), sx.List()))
+	nodes := []*sx.Node{sx.Tag("node", sx.List(sx.List(sx.Str("title"), sx.Str("Start"))), sx.List(body...))}
+	lseed := r.Int63()
+	lay := randomLayout(rand.New(rand.NewSource(lseed)))
+	lay.blankProb = 0
+	ops := []*sx.Node{}
+	for i := 0; i < k+2; i++ {
+		ops = append(ops, sx.Tag("next", sx.Int(0), sx.Int(0)))
+	}
+	return sx.Tag("runner", seedNode(randomSeed(r), 8), sx.Tag("storer", sx.Bool(false)), sx.Tag("init"), sx.Tag("hcmds"),
+		sx.Tag("sched"), sx.Tag("nrunners", sx.Int(1)), sx.Tag("nodes", sx.List(nodes...)), sx.Tag("readers", sx.Int(1)),
+		layoutToSx(lay, lseed), sx.Tag("ops", ops...))
+}
+
+// chain: a flat run of binary operators of mixed precedence over simple operands, associated at
+// random, so that what the printer leaves without parentheses exercises precedence and associativity.
+func (g *dgen) chain(t string) *sx.Node {
+	n := 2 + g.r.Intn(4)
+	switch t {
+	case "num":
+		e := g.expr("num", 0)
+		for i := 0; i < n; i++ {
+			op := []string{"+", "-", "*", "/", "%"}[g.r.Intn(5)]
+			if g.r.Intn(2) == 0 {
+				e = binOp(op, e, g.expr("num", 0))
+			} else {
+				e = binOp(op, g.expr("num", 0), e)
+			}
+			if g.r.Intn(5) == 0 {
+				e = sx.Tag("neg", e)
+			}
+		}
+		return e
+	case "str":
+		e := g.expr("str", 0)
+		for i := 0; i < n; i++ {
+			e = binOp("+", e, g.expr("str", 0))
+		}
+		return e
+	default:
+		e := binOp([]string{"<", "<=", ">", ">=", "==", "!="}[g.r.Intn(6)], g.chain("num"), g.chain("num"))
+		for i := 0; i < n; i++ {
+			var o *sx.Node
+			switch g.r.Intn(3) {
+			case 0:
+				o = binOp([]string{"<", "<=", ">", ">=", "==", "!="}[g.r.Intn(6)], g.chain("num"), g.expr("num", 0))
+			case 1:
+				o = fnCall("p", strLit("side"), g.expr("bool", 0))
+			default:
+				o = g.expr("bool", 0)
+			}
+			op := []string{"and", "or", "xor", "==", "!="}[g.r.Intn(5)]
+			if g.r.Intn(2) == 0 {
+				e = binOp(op, e, o)
+			} else {
+				e = binOp(op, o, e)
+			}
+			if g.r.Intn(5) == 0 {
+				e = sx.Tag("not", e)
+			}
+		}
+		return e
+	}
+}
+
+// runRepeated executes a case several times - twice in this process with an unrelated runner (another
+// seed, drawing random numbers) in between, and once in a fresh child process - and returns the
+// common result, or (differ ...) when the executions are not identical (C09).
+func runRepeated(c *sx.Node) *sx.Node {
+	r1 := runRunnerCase(c).String()
+	// unrelated activity: another runner with another seed drawing from its own source
+	other := sx.Tag("runner", seedNode("other"+strconv.Itoa(len(r1)%7), 4), sx.Tag("storer", sx.Bool(false)), sx.Tag("init"), sx.Tag("hcmds"),
+		sx.Tag("sched"), sx.Tag("nrunners", sx.Int(1)),
+		sx.Tag("nodes", sx.List(sx.Tag("node", sx.List(sx.List(sx.Str("title"), sx.Str("A"))),
+			sx.List(sx.Tag("line", sx.List(sx.Tag("e", fnCall("dice", numLit(6))), sx.Tag("e", fnCall("random"))), sx.List(), sx.List()))))),
+		sx.Tag("readers", sx.Int(1)), layoutToSx(defaultLayout(), 1), sx.Tag("ops", sx.Tag("next", sx.Int(0), sx.Int(0))))
+	runRunnerCase(other)
+	r2 := runRunnerCase(c).String()
+	r3 := r1
+	if os.Getenv("VERIF_NO_CHILD") == "" {
+		cmd := exec.Command(os.Args[0], "run", "flow")
+		cmd.Env = append(os.Environ(), "VERIF_WORKERS=1")
+		cmd.Stdin = strings.NewReader(c.String() + "\n")
+		var out bytes.Buffer
+		cmd.Stdout = &out
+		if err := cmd.Run(); err != nil {
+			r3 = "(\"CHILD-FAILED\")"
+		} else {
+			r3 = strings.TrimSpace(out.String())
+		}
+	}
+	if r1 == r2 && r2 == r3 {
+		n, _ := sx.Parse(r1)
+		return n
+	}
+	a, _ := sx.Parse(r1)
+	b, _ := sx.Parse(r2)
+	d, err := sx.Parse(r3)
+	if err != nil {
+		d = sx.Str(r3)
+	}
+	return sx.Tag("differ", a, b, d)
 }
